@@ -110,6 +110,9 @@ def sort_of(ty):
                   ('val', ArraySort(sort_of(ty[1]), sort_of(ty[2]))))
         s = d.create()
         _dt[ty] = s
+    elif k == 'heap':
+        # the block dictionaries of all region sub-graphs, by sub-graph identity (heap mode, DESIGN 11)
+        s = ArraySort(IntSort(), sort_of(('dict', T_NAME, T_BLOCK)))
     elif k == 'tmap':
         # collections.defaultdict(<factory of an empty V>): a total map; a key that was never written reads as the
         # factory value (reading it inserts the key in Python, which no modelled operation can observe: tmaps are
@@ -141,6 +144,7 @@ T_SEQN = ('seq', T_NAME)
 T_SETN = ('set', T_NAME)
 T_INST = ('inst',)
 T_SUB = ('sub',)
+T_HEAP = ('heap',)
 sub_graph_f = None
 
 
@@ -595,7 +599,7 @@ def val_eq(a, b, fields=None):
             return a.t == b.t
         raise TypeError('== between %r and %r' % (a.ty, b.ty))
     k = a.ty[0]
-    if k == 'tmap':
+    if k in ('tmap', 'heap'):
         return a.t == b.t
     if k == 'seq':
         return seq_eq(a, b)
